@@ -25,7 +25,7 @@ pub static PAGE_ALLOCS_SEEN: AtomicU64 = AtomicU64::new(0);
 // construction / re-configuration of a fixed-metadata VM) get a canary-filled slack behind them,
 // so that compiled code writing beyond the VM's private metadata buffer lands in the slack — a
 // deterministic, attributable observation — instead of trampling the worker's heap.
-pub const SLACK: usize = 40960;
+pub const SLACK: usize = 131072;
 const CANARY: u8 = 0xC5;
 const MAXG: usize = 64;
 static GUARD_BYTES: AtomicU64 = AtomicU64::new(0);
